@@ -159,7 +159,12 @@ def replay_transition(chk, G: Gamma, ev, rnd):
     token = real_token(s, ev["tok"], tform)
     totp = TOTP(key=s["key"], format="raw", alg=s["alg"], digits=6, period=P)
     tm = real_time(t_real, tmform)
-    got = classify(lambda: totp.match(token, time=tm, window=w_real, skew=skew_real, last_counter=last_real))
+    if rnd.random() < .3:
+        # the one-call front end: TOTP.verify(token, serialised source, ...) must decide exactly as match() on the loaded object
+        src = rnd.choice([totp.to_json, totp.to_dict, lambda: totp])()
+        got = classify(lambda: TOTP.verify(token, src, time=tm, window=w_real, skew=skew_real, last_counter=last_real))
+    else:
+        got = classify(lambda: totp.match(token, time=tm, window=w_real, skew=skew_real, last_counter=last_real))
     r = ev["res"]
     if r[0] == "Accept":
         c = T0 + r[1]
@@ -247,7 +252,11 @@ def record_sequences(rnd, ntraces, nsteps):
                     token = int(token)
             t_real = T0 * P + now
             last_real = None if last is None else T0 + last
-            got = classify(lambda: totp.match(token, time=t_real, window=w, skew=skew, last_counter=last_real))
+            if rnd.random() < .3:
+                src = rnd.choice([totp.to_json, totp.to_dict])()
+                got = classify(lambda: type(totp).verify(token, src, time=t_real, window=w, skew=skew, last_counter=last_real))
+            else:
+                got = classify(lambda: totp.match(token, time=t_real, window=w, skew=skew, last_counter=last_real))
             if got[0] == "Accept":
                 res = ["Accept", got[1] - T0, got[2], got[3] - T0 * P, got[4] - T0 * P, got[5]]
                 if rnd.random() < .85:            # the application feeds the counter back
